@@ -250,7 +250,7 @@ def run_job(job):
             res["exports"][name] = None
             res.setdefault("export_errors", {})[name] = "%s: %s" % (type(e).__name__, e)
     post = job.get("post_hook")
-    if post and lian is not None:
+    if post and (lian is not None or job.get("post_always")):
         import importlib
         try:
             job["console_text"] = console.getvalue()
